@@ -581,11 +581,17 @@ func c02MountTmpfs(mb int) (dir string, err error) {
 }
 
 func c02UmountTmpfs(dir string) {
-	for i := 0; i < 50; i++ {
+	done := false
+	for i := 0; i < 10 && !done; i++ {
 		if exec.Command("umount", dir).Run() == nil {
-			break
+			done = true
+		} else {
+			time.Sleep(20 * time.Millisecond)
 		}
-		time.Sleep(20 * time.Millisecond)
+	}
+	if !done {
+		// a store that hangs (a finding) keeps its files open: detach the file system, it goes away with the process
+		_ = exec.Command("umount", "-l", dir).Run()
 	}
 	os.RemoveAll(dir)
 }
